@@ -275,7 +275,25 @@ def check (s : St) (tids : List Tid) : Option String :=
              | _ => false)) s!"node N{n} is neither freed, linked, private nor owned by a record"),
     first? (pcs.map fun (t, p) => match privNode p with
       | some (n, l) => chk (s.nled n == l && n < s.nN && !s.order.contains n) s!"private node N{n} t={t}"
-      | none => none)
+      | none => none),
+    -- layer E: reachability.  `safe r c`: c linked, or its erase in progress, or its zombie record above r on the log
+    (let pend : List Nat := pcs.filterMap fun (_, p) => match p with
+        | .eFix c _ _ _ | .eAlloc c _ | .eCons c _ _ => some c
+        | .eZh _ z | .pushStore (.erase _) z _ | .pushCas (.erase _) z _ => (s.recs z).znode
+        | _ => none
+     let safe (r c : Nat) : Bool :=
+       s.lst.contains c || pend.contains c ||
+         s.log.any (fun z => (s.recs z).znode == some c && (match splitAt z s.log with | some (_, post) => post.contains r | none => false))
+     first? (tids.map fun t => match s.hnd t with
+       | .reg _ r =>
+         first? [
+           (match s.it t with
+            | some (some c) => chk (safe r c && s.nled c == .cons) s!"iterator of t={t} at N{c}: node not protected / not live"
+            | _ => none),
+           first? (s.order.map fun c =>
+             chk (s.lst.contains c || !(safe r c) || (match (s.nodes c).next with | some x => safe r x | none => true))
+               s!"next of protected unlinked node N{c} not protected for t={t}")]
+       | _ => none))
   ]
 
 end Driver.RcuInv
